@@ -52,6 +52,12 @@ COLS_E = [
     ("v_bool", f"{C}.Select(lambda j: j.isGood())", ["seq", ["val", "bool", []]], "b", 1),
     ("v_float", f"{C}.Select(lambda j: j.charge())", ["seq", ["val", "float", []]], "f", 1),
     ("v_flt_tt", f"{C}.Select(lambda j: j.flt())", ["seq", ["val", "float", ["double"]]], "f", 1),
+    ("v_color_tt", f"{C}.Select(lambda j: j.color())", ["seq", ["val", "MyNS::Color", ["int"]]], None, 1),
+    ("v_qual_tt", f"{C}.Select(lambda j: j.qual())", ["seq", ["val", "MyNS::Quality", ["double"]]], None, 1),
+    # 2-D over a tree_type method: the unchanged code types the inner sequence by cpp_type(), i.e. it ignores the
+    # element's declared tree_type there (documented behaviour, kept as the expectation)
+    ("vv_color_tt", f"{C}.Select(lambda j: j.hits().Select(lambda h: j.color()))", ["seq", ["seq", ["val", "MyNS::Color", ["int"]]]], None, 2),
+    ("vv_flt_tt", f"{C}.Select(lambda j: j.hits().Select(lambda h: j.flt()))", ["seq", ["seq", ["val", "float", ["double"]]]], None, 2),
     ("vv_dbl", f"{C}.Select(lambda j: j.vals())", ["seq", ["coll", "std::vector<double>"]], "f", 2),
     ("vv_int", f"{C}.Select(lambda j: j.hits().Select(lambda h: h + 1))", ["seq", ["seq", ["val", "int", []]]], "i", 2),
 ]
@@ -61,12 +67,26 @@ COLS_J = [
     ("bool", "j.isGood()", ["val", "bool", []], "b", 0),
     ("float", "j.charge()", ["val", "float", []], "f", 0),
     ("flt_tt", "j.flt()", ["val", "float", ["double"]], "f", 0),
+    ("color_tt", "j.color()", ["val", "MyNS::Color", ["int"]], None, 0),
+    ("qual_tt", "j.qual()", ["val", "MyNS::Quality", ["double"]], None, 0),
+    ("v_color_tt", "j.hits().Select(lambda h: j.color())", ["seq", ["val", "MyNS::Color", ["int"]]], None, 1),
     ("cmp", "j.pt() > 1", ["val", "bool", []], "b", 0),
     ("div", "j.nTrk()/2", ["val", "double", []], "f", 0),
     ("cond", "(j.pt() if j.pt() > 1 else j.eta())", ["val", "double", []], "f", 0),
     ("v_int", "j.hits().Select(lambda h: h + 1)", ["seq", ["val", "int", []]], "i", 1),
     ("v_dbl", "j.vals().Select(lambda v: v * 2)", ["seq", ["val", "double", []]], "f", 1),
 ]
+# The C++ column type the property text demands for each structured kind: scalar / vector / vector of vectors of the
+# element type the expression has, where a method declared with a tree_type has that leaf type (written by hand,
+# independently of the model; 2-D over a tree_type method: see the comment above).
+EXPECT_TYPE = {
+    "E": {"int": "int", "div": "double", "cmp": "bool", "cond": "double", "v_dbl": "std::vector<double>", "v_int": "std::vector<int>",
+          "v_bool": "std::vector<bool>", "v_float": "std::vector<float>", "v_flt_tt": "std::vector<double>", "v_color_tt": "std::vector<int>",
+          "v_qual_tt": "std::vector<double>", "vv_color_tt": "std::vector<std::vector<MyNS::Color>>", "vv_flt_tt": "std::vector<std::vector<float>>",
+          "vv_dbl": "std::vector<std::vector<double>>", "vv_int": "std::vector<std::vector<int>>"},
+    "J": {"int": "int", "dbl": "double", "bool": "bool", "float": "float", "flt_tt": "double", "color_tt": "int", "qual_tt": "double",
+          "v_color_tt": "std::vector<int>", "cmp": "bool", "div": "double", "cond": "double", "v_int": "std::vector<int>", "v_dbl": "std::vector<double>"},
+}
 # malformed columns: raw collection (not iterated), nested structure, sequence of structures
 BAD_E = [
     ("seq_of_tuple", f"{C}.Select(lambda j: (j.pt(), j.eta()))", ["seq", ["struct", False]]),
@@ -129,13 +149,15 @@ class Case:
         return 1 if self.form in ("bare", "explicit_bare") else len(self.cols)
 
     def describe(self) -> Dict[str, Any]:
-        return {"backend": self.backend, "query": self.src(), "form": self.form, "columns": [c[0] for c in self.cols], "names": self.names, "fresh_name_counter": self.fresh}
+        return {"backend": self.backend, "scope": self.scope, "tree": self.tree, "query": self.src(), "form": self.form, "columns": [c[0] for c in self.cols], "names": self.names, "fresh_name_counter": self.fresh}
 
 
 def metadata(uni: qgen.Universe):
     md = uni.metadata()
     for t in [t for _, t in uni.colls.values()]:
         md.append({"metadata_type": "add_method_type_info", "type_string": t, "method_name": "flt", "return_type": "float", "tree_type": "double"})
+        md.append({"metadata_type": "add_method_type_info", "type_string": t, "method_name": "color", "return_type": "MyNS::Color", "tree_type": "int"})
+        md.append({"metadata_type": "add_method_type_info", "type_string": t, "method_name": "qual", "return_type": "MyNS::Quality", "tree_type": "double"})
     return md
 
 
@@ -296,6 +318,12 @@ def oracle(case: Case, r: Result, uni, evs, model) -> Optional[Tuple[str, str]]:
     fc = model.call("c03.fillcheck", [case.backend == "atlas", r.prog])
     if fc[0] not in (True, "true"):
         return ("c03:fill-inconsistent", f"fill_consistent rejects the emitted program (branches_ok={fc[1]}, columns={fc[2]})")
+    # element types by construction of the structured case (property text: vector of the element's leaf type)
+    if case.scope in EXPECT_TYPE and len(case.cols) == len(bv):
+        for i, c in enumerate(case.cols):
+            want = EXPECT_TYPE[case.scope].get(c[0])
+            if want is not None and mt[bv[i]][0] != want:
+                return ("c03:column-type", f"column {names[i]} ({c[0]}: {c[1]}) is declared {mt[bv[i]][0]}, the final expression's element type demands {want}")
     # element types from the reference semantics
     src = case.src()
     kinds: List[Optional[Tuple[str, int]]] = [None] * len(names)
@@ -555,7 +583,8 @@ def check(tier: str, seed: int, t0: float, build: core.BuildStatus) -> int:
     oc.extra.update({"outcome_histogram": hist, "terminal_form_histogram": forms, "programs_accepted_by_fill_consistent": checker_accepts,
                      "forall_part": "events, member states, event sequences and IR programs: proved; queries: sampled (counts above)",
                      "duplicate_given_names": "booked as given with distinct variables (conforms to the text: only positional defaults are required to be distinct); duplicate dict keys are refused by func_adl's front end (TypeError)"})
-    if not oc.violations and (ps.broken or oc.correspondence_breaks or model is None or gen_refusal or core.build_hygiene_cache()):
+    known_keys = {k["key"] for k in core.known_findings() if k.get("property") == PID and k.get("status") == "known"}
+    if all(v.key in known_keys for v in oc.violations) and (ps.broken or oc.correspondence_breaks or model is None or gen_refusal or core.build_hygiene_cache()):
         what = ps.broken or (f"translator outfile.py refused: {gen_refusal}" if gen_refusal else None) or (
             f"correspondence TreeSchema vs implementation: {oc.correspondence_breaks[0]}" if oc.correspondence_breaks else
             ("hygiene gate: " + "; ".join(core.build_hygiene_cache()) if core.build_hygiene_cache() else "model executable could not be built"))
@@ -582,17 +611,26 @@ def replay(path: str, build: core.BuildStatus) -> int:
     print("query:", src)
     print("implementation:", r.status, r.error or "", "\n  book:", r.book, "\n  class_decl:", r.decl, "\n  descriptor:", [r.file, r.tree])
     names = data.get("names")
-    fs = final_shape(src)
-    if fs is None and names is None:
-        print("cannot derive the final shape")
-        return 1
-    nm = fs[0] if fs else ([names] if isinstance(names, str) else list(names))
-    case = Case(be, "Q", [], "explicit" if (fs and fs[1]) else "qgen", names=nm, tree=(fs[1] if fs else None))
-    case.random = data.get("kind") == "qgen"  # type: ignore
-    case.src = lambda s=src: s  # type: ignore
-    case.oracle_names = lambda n=nm: list(n)  # type: ignore
-    ncol = len(data["columns"]) if data.get("columns") and data.get("form") not in ("bare", "explicit_bare") else (1 if data.get("columns") else len(nm))
-    case.ncols = lambda n=ncol: n  # type: ignore
+    case = None
+    if data.get("kind") == "structured" and data.get("scope") in ("E", "J"):
+        pool = {c[0]: c for c in (COLS_E if data["scope"] == "E" else COLS_J)}
+        pool.update({b[0]: (b[0], b[1], b[2], None, 0) for b in (BAD_E if data["scope"] == "E" else BAD_J)})
+        if all(l in pool for l in data["columns"]):
+            case = Case(be, data["scope"], [pool[l] for l in data["columns"]], data["form"], names=names, tree=data.get("tree"), fresh=bool(data.get("fresh_name_counter")))
+            if case.src() != src:
+                case = None
+    if case is None:
+        fs = final_shape(src)
+        if fs is None and names is None:
+            print("cannot derive the final shape")
+            return 1
+        nm = fs[0] if fs else ([names] if isinstance(names, str) else list(names))
+        case = Case(be, "Q", [], "explicit" if (fs and fs[1]) else "qgen", names=nm, tree=(fs[1] if fs else None))
+        case.random = data.get("kind") == "qgen"  # type: ignore
+        case.src = lambda s=src: s  # type: ignore
+        case.oracle_names = lambda n=nm: list(n)  # type: ignore
+        ncol = len(data["columns"]) if data.get("columns") and data.get("form") not in ("bare", "explicit_bare") else (1 if data.get("columns") else len(nm))
+        case.ncols = lambda n=ncol: n  # type: ignore
     rng = random.Random(1)
     bad = oracle(case, r, uni, sample_events(rng, uni), model)
     model.close()
